@@ -440,7 +440,7 @@ def query_order(repo, rep):
 
 
 def run(repo, rep, tier):
-    rep.rule("R-C14-8", "every parameter of the functions behind this property is read (site selection): none is accepted and then ignored")
+    rep.rule("R-C14-8", "every parameter of the functions behind this property is read (site selection): none is accepted and then ignored, and no control parameter (cutoff, limit, tolerance, window, count, switch) is replaced by another value before use (coercion and default filling aside)")
     from .shared import unused_parameters
     unused_parameters(repo, rep, "R-C14-8", ("wavespectra.core.select", "wavespectra.specdataset.SpecDataset.sel"), "site selection")
     rep.rule("R-C14-1", "a difference of two longitudes is folded into [0, 180] before it enters the distance")
